@@ -493,6 +493,7 @@ def fuzz_dict(path):
 
 def fuzz_worker(job):
     bindir, target, idx, runs = job
+    cap_s = 240 if runs < 1000000 else 1500     # budget cap (not a verdict): a run that grows a slow corpus ends here; the executions done are reported
     rng = sub_rng(PROP, 'fuzz', target, idx)
     part = Partial()
     wd = scratch('c15f')
@@ -504,7 +505,7 @@ def fuzz_worker(job):
         fuzz_dict(os.path.join(wd, 'dict'))
         env = dict(os.environ, VFUZZ_TARGET=target, ASAN_OPTIONS='detect_leaks=0:abort_on_error=0:allocator_may_return_null=1:quarantine_size_mb=8:symbolize=1', UBSAN_OPTIONS='print_stacktrace=1:symbolize=1',
                    ASAN_SYMBOLIZER_PATH='/usr/bin/llvm-symbolizer-14')
-        cmd = [os.path.join(bindir, 'vfuzz'), '-runs=%d' % runs, '-seed=%d' % (rng.randrange(1, 2 ** 31)), '-max_len=%d' % (4096 if target in ('value', 'tf', 'script') else 16384), '-timeout=120', '-rss_limit_mb=6000', '-malloc_limit_mb=3000',
+        cmd = [os.path.join(bindir, 'vfuzz'), '-runs=%d' % runs, '-seed=%d' % (rng.randrange(1, 2 ** 31)), '-max_len=%d' % (4096 if target in ('value', 'tf', 'script') else 16384), '-max_total_time=%d' % cap_s, '-timeout=120', '-rss_limit_mb=6000', '-malloc_limit_mb=3000',
                '-artifact_prefix=' + art + '/', '-print_final_stats=1', '-dict=' + os.path.join(wd, 'dict'), '-verbosity=1', corpus]
         try:
             r = subprocess.run(cmd, env=env, cwd=wd, stdin=subprocess.DEVNULL, stdout=subprocess.DEVNULL, stderr=subprocess.PIPE, timeout=6 * 3600)
